@@ -1711,3 +1711,364 @@ def worktree_side_honours_git_deletion(ctx, rule):
         ok2 = any(any(isinstance(x, ast.Name) and x.id in extra_params for x in ast.walk(t)) for t, pol in guards)
         ctx.inst(rule, GF + ':_get_diff_entry_stream', repo.norm(o)[:80], ok2 or not ok1 and False, 'reached only when git did not report the entry as deleted' if ok2 else
                  'the working-tree file is opened whatever git reported for the entry', o)
+
+
+# =================================================================================================== round 5 triage
+@extra('C02', 'R02.17', 'the mapping differ never tests the VALUES of the two documents by truthiness: null, false, 0, 0.0, "", [] and {} are seven different JSON values that are all falsy', 1)
+@extra('C01', 'R01.18', 'the mapping differ never tests the VALUES of the two documents by truthiness: null, false, 0, 0.0, "", [] and {} are seven different JSON values that are all falsy', 1)
+def differ_values_not_tested_by_truthiness(ctx, rule):
+    from ..keys import truth_uses
+    from ..util import local_defs
+    repo = ctx.repo
+    n = 0
+    for fid in ('nbdime.diffing.generic:diff_dicts', 'nbdime.diffing.generic:diff_lists', 'nbdime.diffing.notebooks:diff_mime_bundle',
+                'nbdime.diffing.notebooks:diff_attachments', 'nbdime.diffing.notebooks:add_mime_diff'):
+        if fid not in repo.functions:
+            continue
+        fn = repo.functions[fid]
+        ps = [a.arg for a in fn.args.args]
+        docs = set(ps[:2]) if not fid.endswith('add_mime_diff') else set()
+        defs = local_defs(fn)
+        vals = set(ps[1:3]) if fid.endswith('add_mime_diff') else set()
+        for nm, ds in defs.items():
+            for v, k, st in ds:
+                if k == 'assign' and isinstance(v, ast.Subscript) and isinstance(v.value, ast.Name) and v.value.id in docs:
+                    vals.add(nm)
+        bad = [e for e in truth_uses(fn) if isinstance(e, ast.Name) and e.id in vals]
+        n += 1
+        ctx.inst(rule, fid, 'value names %s: %d truthiness test(s)' % (sorted(vals), len(bad)), not bad,
+                 'values are only compared, never tested for truth' if not bad else
+                 '`%s` is a value taken out of one of the documents and is tested by truthiness (%s): two DIFFERENT falsy values under one key -- null vs [], false vs 0, "" vs {} -- '
+                 'take the same branch, so the diff is empty and patch(a, diff) returns a instead of b' % (bad[0].id, repo.norm(repo.stmt_of(bad[0]))[:60]), bad[0] if bad else fn)
+    if n < 3:
+        raise AnalysisError('mapping/list differs not found')
+
+
+@extra('C12', 'R12.10', 'a value looked up in the predicate/differ tables (a list shared by every later call) is never modified in place: no del/append/sort/slice-assignment on it', 2)
+def table_values_not_mutated(ctx, rule):
+    from ..util import local_defs
+    repo = ctx.repo
+    MUT = {'append', 'extend', 'insert', 'remove', 'pop', 'clear', 'sort', 'reverse'}
+    n = 0
+    for fid, fn in sorted(repo.functions.items()):
+        if not fid.startswith(('nbdime.diffing.', 'nbdime.merging.')):
+            continue
+        defs = local_defs(fn)
+        tv = set()
+        for nm, ds in defs.items():
+            for v, k, st in ds:
+                if k == 'assign' and isinstance(v, ast.Subscript) and isinstance(v.value, ast.Attribute) and v.value.attr in ('predicates', 'differs'):
+                    tv.add(nm)
+        if not tv:
+            continue
+        n += 1
+        bad = []
+        for x in walk_no_nested(fn):
+            if isinstance(x, ast.Delete):
+                for t in x.targets:
+                    if isinstance(t, ast.Subscript) and isinstance(t.value, ast.Name) and t.value.id in tv:
+                        bad.append((x, 'del %s[...]' % t.value.id))
+            if isinstance(x, ast.Subscript) and isinstance(x.ctx, ast.Store) and isinstance(x.value, ast.Name) and x.value.id in tv:
+                bad.append((x, '%s[...] = ...' % x.value.id))
+            if isinstance(x, ast.AugAssign) and isinstance(x.target, ast.Name) and x.target.id in tv:
+                bad.append((x, '%s %s= ...' % (x.target.id, type(x.op).__name__)))
+            if isinstance(x, ast.Call) and isinstance(x.func, ast.Attribute) and x.func.attr in MUT and isinstance(x.func.value, ast.Name) and x.func.value.id in tv:
+                bad.append((x, '%s.%s(...)' % (x.func.value.id, x.func.attr)))
+        ctx.inst(rule, fid, 'table values %s' % sorted(tv), not bad, 'read only' if not bad else
+                 '%s modifies the list held by the process-wide table (for /cells it is the ONE list stored in notebook_predicates): every later diff and merge in the process sees '
+                 'the shortened/changed list, and resetting the ignore options does not bring it back' % bad[0][1], bad[0][0] if bad else fn)
+    if n < 2:
+        raise AnalysisError('no function reading the predicate/differ tables into a local found')
+
+
+@extra('C14', 'R14.16', 'no function whose answer depends on the (mutable, process-wide) differ/predicate tables is memoised: an lru_cache keyed by (config, path) keeps the first answer '
+       'while the ignore options rewrite the table in place', 1)
+@extra('C12', 'R12.11', 'no function whose answer depends on the (mutable, process-wide) differ/predicate tables is memoised: an lru_cache keyed by (config, path) keeps the first answer '
+       'while the ignore options rewrite the table in place', 1)
+def table_readers_not_memoised(ctx, rule):
+    repo = ctx.repo
+    n = 0
+    for fid, fn in sorted(repo.functions.items()):
+        if not fid.startswith('nbdime.diffing.'):
+            continue
+        reads = any(isinstance(x, ast.Attribute) and x.attr in ('differs', 'predicates') for x in ast.walk(fn)) or \
+            any(isinstance(x, ast.Name) and x.id in ('notebook_differs', 'notebook_predicates') and isinstance(x.ctx, ast.Load) for x in ast.walk(fn))
+        if not reads:
+            continue
+        n += 1
+        memo = [d for d in fn.decorator_list if any(isinstance(x, (ast.Name, ast.Attribute)) and (getattr(x, 'id', None) or getattr(x, 'attr', None)) in ('lru_cache', 'cache', 'memoize', 'cached')
+                                                      for x in ast.walk(d))]
+        ctx.inst(rule, fid, 'reads the option tables; memoised: %s' % ('yes' if memo else 'no'), not memo, 'evaluated on every call' if not memo else
+                 'the result is cached per argument tuple, but it depends on what the table holds NOW: after the ignore options change (or are reset) the cached answer of the '
+                 'earlier configuration is returned -- an ignored field is reported, or a change in a field that is no longer ignored is dropped', memo[0] if memo else fn)
+    if n < 4:
+        raise AnalysisError('fewer than 4 functions reading the option tables found')
+
+
+@extra('C05', 'R05.10', 'both sides are always diffed against base (C09 R09.9): a side that compares == to base may still differ from it in the type of a number', 2)
+def c05_both_sides_diffed(ctx, rule):
+    from ..report import run_sub
+    from . import c09
+    run_sub(ctx, c09, {'R09.9': rule})
+
+
+@extra('C06', 'R06.1', 'merge_notebooks returns exactly (apply_decisions(base, decisions), decisions) (C05 R05.8): no post-processing drops content neither side touched', 2)
+def c06_merged_is_applied(ctx, rule):
+    _merged_is_applied_decisions(ctx, rule)
+
+
+@extra('C18', 'R18.11', 'enabling a driver registers it in the git configuration on every path that goes on to the attributes file: no return that follows the repository check '
+       'precedes the `git config <section>.* ...` writes (an attributes file that already routes *.ipynb must not skip the registration)', 2)
+def driver_registered_before_any_return(ctx, rule):
+    from ..cfg import CFG
+    repo = ctx.repo
+    for short, mod in (('diffdriver', 'nbdime.vcs.git.diffdriver'), ('mergedriver', 'nbdime.vcs.git.mergedriver')):
+        fid = mod + ':enable'
+        fn = repo.func(fid)
+        g = CFG(fn)
+        regs = [repo.stmt_of(c) for c in calls_in(fn, nested=False) if dotted(c.func) in ('check_call', 'subprocess.check_call') and
+                any(isinstance(k, ast.Constant) and isinstance(k.value, str) and 'jupyternotebook' in k.value for k in ast.walk(c))]
+        if not regs:
+            raise AnalysisError('%s: registration of the driver (git config ... jupyternotebook ...) not found' % fid)
+        # returns that are not inside an except handler (the "not in a git repository" exits) and not dominated by every registration
+        bad = []
+        for r in [x for x in walk_no_nested(fn) if isinstance(x, ast.Return)]:
+            if repo.enclosing(r, (ast.ExceptHandler,)) is not None:
+                continue
+            guards_none = any(isinstance(t, ast.Compare) and isinstance(t.ops[0], ast.Is) and const_val(t.comparators[0]) is None for t in
+                              [getattr(repo.enclosing(r, (ast.If,)), 'test', None)] if t is not None)
+            if not all(g.dominated_by(r, [rg]) for rg in regs):
+                bad.append((r, guards_none))
+        bad = [b for b in bad]
+        ctx.inst(rule, fid, '%d registration call(s); returns not preceded by them: %d' % (len(regs), len(bad)), not bad,
+                 'the driver is registered before the attributes file is looked at' if not bad else
+                 '`%s` can be reached before the driver is registered: when the attributes file already routes *.ipynb to the driver (after enable; disable; enable -- disable keeps the '
+                 'attributes line) the registration is skipped, so git is told to use a driver that is not configured' % repo.norm(bad[0][0]), bad[0][0] if bad else fn)
+
+
+@extra('C08', 'R08.12', 'low-level writes on the command path check how much was written: the result of os.write is not discarded (a short write -- disk full, quota, file size limit -- '
+       'would leave truncated JSON behind a zero exit status)', 0)
+def os_write_result_checked(ctx, rule):
+    repo = ctx.repo
+    n = 0
+    for fid, fn in sorted(repo.functions.items()):
+        if not fid.startswith(('nbdime.nbmergeapp', 'nbdime.utils', 'nbdime.vcs.git.mergedriver', 'nbdime.nbdiffapp', 'nbdime.nbpatchapp')):
+            continue
+        for c in calls_in(fn, nested=False):
+            if dotted(c.func) in ('os.write', 'os.pwrite'):
+                n += 1
+                st = repo.stmt_of(c)
+                ok = not (isinstance(st, ast.Expr) and st.value is c)
+                ctx.inst(rule, fid, repo.norm(c)[:70], ok, 'the byte count is used' if ok else
+                         'os.write may write fewer bytes than given and says so only through its return value, which is discarded here: the output is silently truncated and the '
+                         'command still exits 0', c)
+    ctx.inst(rule, 'nbdime (command path)', '%d os.write call(s)' % n, True, 'each judged above', None, nontrivial=False)
+
+
+@extra('C09', 'R09.17', 'the decisions file is dumped in a form that cannot fail half way through the stream: json.dump of the decisions keeps ensure_ascii (a lone surrogate in notebook '
+       'text raises UnicodeEncodeError in the middle of a utf8 stream and leaves a truncated, unparsable file)', 1)
+def decisions_dump_ascii(ctx, rule):
+    repo = ctx.repo
+    fid = 'nbdime.nbmergeapp:main_merge'
+    fn = repo.func(fid)
+    dumps = [c for c in calls_in(fn, nested=False) if dotted(c.func) in ('json.dump', 'json.dumps') and c.args and 'decision' in (dotted(c.args[0]) or '')]
+    if not dumps:
+        raise AnalysisError('main_merge: json.dump(decisions, ...) not found')
+    for c in dumps:
+        ea = [k for k in c.keywords if k.arg == 'ensure_ascii']
+        ok = not ea or const_val(ea[0].value) is True
+        ctx.inst(rule, fid, repo.norm(c)[:80], ok, 'ASCII-only output: every str can be written' if ok else
+                 'ensure_ascii=False streams raw characters into a strict utf8 file: text with a lone surrogate (valid JSON \\\\udXXX, accepted by nbformat) raises half way -- the decisions file is truncated', c)
+
+
+@extra('C16', 'R16.19', 'pprint is never given a computed width that can be zero (pprint raises ValueError for width == 0): a width expression is a constant or is clamped with max(..)', 0)
+def pprint_width_positive(ctx, rule):
+    repo = ctx.repo
+    n = 0
+    for fid, fn in sorted(repo.functions.items()):
+        if not fid.startswith('nbdime.prettyprint:'):
+            continue
+        for c in calls_in(fn, nested=False):
+            if (dotted(c.func) or '').split('.')[-1] in ('pformat', 'pprint', 'PrettyPrinter'):
+                w = [k.value for k in c.keywords if k.arg == 'width']
+                if not w:
+                    continue
+                n += 1
+                e = w[0]
+                ok = isinstance(e, ast.Constant) or (isinstance(e, ast.Call) and dotted(e.func) == 'max' and any(isinstance(a, ast.Constant) and isinstance(a.value, int) and a.value > 0 for a in e.args))
+                ctx.inst(rule, fid, repo.norm(c)[:80], ok, 'width is positive' if ok else
+                         'width = %s can be exactly 0 (a list printed under a prefix as wide as the line): pprint raises ValueError("width must be != 0") and rendering a valid, deeply nested '
+                         'notebook aborts' % ast.unparse(e), c)
+    ctx.inst(rule, 'nbdime.prettyprint', '%d pprint call(s) with a width' % n, True, 'each judged above', None, nontrivial=False)
+
+
+@extra('C17', 'R17.14', 'the committed/staged side is decoded as a whole and strictly: blob bytes are not decoded piecewise or with a lossy error handler (a multi-byte character split '
+       'across chunks, or invalid bytes, would silently become U+FFFD and the stream would no longer be what git holds)', 1)
+def blob_decoded_whole_and_strict(ctx, rule):
+    repo = ctx.repo
+    n = 0
+    for fid, fn in sorted(repo.functions.items()):
+        if not fid.startswith('nbdime.gitfiles:'):
+            continue
+        for c in calls_in(fn, nested=False):
+            if isinstance(c.func, ast.Attribute) and c.func.attr == 'decode':
+                n += 1
+                errs = [const_val(k.value) for k in c.keywords if k.arg == 'errors'] + ([const_val(c.args[1])] if len(c.args) > 1 else [])
+                lossy = any(e in ('replace', 'ignore', 'backslashreplace') for e in errs)
+                in_loop = repo.enclosing(c, (ast.For, ast.While, ast.ListComp, ast.GeneratorExp)) is not None and repo.func_of(repo.enclosing(c, (ast.For, ast.While, ast.ListComp, ast.GeneratorExp))) is fn
+                ok = not lossy and not in_loop
+                ctx.inst(rule, fid, repo.norm(c)[:80], ok, 'whole blob, strict' if ok else
+                         ('decoded with errors=%r' % errs[0] if lossy else 'decoded piece by piece inside a loop') +
+                         ': the text handed to the differ is not the blob git holds (silently: the notebook still parses)', c)
+    if not n:
+        raise AnalysisError('gitfiles: no decode of blob data found')
+
+
+@extra('C20', 'R20.15', 'file names taken from a request body are used verbatim: nothing on the way from the JSON body to read_notebook unescapes / unquotes / normalises them '
+       '(a JSON string is not URL-encoded; "v1+2.ipynb" and "%41.ipynb" are ordinary names)', 1)
+def request_names_verbatim(ctx, rule):
+    repo = ctx.repo
+    DEC = ('url_unescape', 'unquote', 'unquote_plus', 'url_unescape', 'normpath', 'unescape', 'xhtml_unescape')
+    n = 0
+    for fid, fn in sorted(repo.functions.items()):
+        if not fid.startswith('nbdime.webapp.nbdimeserver:') or not any(k in fid for k in ('get_notebook_argument', 'read_notebook', 'get_pair_argument', 'ApiDiffHandler.post', 'ApiMergeHandler.post')):
+            continue
+        n += 1
+        bad = [c for c in calls_in(fn, nested=False) if (dotted(c.func) or '').split('.')[-1] in DEC]
+        ctx.inst(rule, fid, '%d decoding call(s) on request data' % len(bad), not bad, 'names are used as given' if not bad else
+                 '%s rewrites a name that came out of the JSON body: a request for "v1+2.ipynb" reads "v1 2.ipynb" -- the response describes other notebooks than the ones asked for' % repo.norm(bad[0])[:50],
+                 bad[0] if bad else fn)
+    if not n:
+        raise AnalysisError('request argument functions of the server not found')
+
+
+@extra('C19', 'R19.11', 'the entry point whose configuration a parser reads is found by EXACT lookup of the program name: no prefix/substring matching against the table of entry points '
+       '("nbdiff" is a prefix of "nbdiff-web")', 1)
+def entrypoint_exact_lookup(ctx, rule):
+    repo = ctx.repo
+    n = 0
+    for fid, fn in sorted(repo.functions.items()):
+        if not fid.startswith(('nbdime.args:', 'nbdime.config:')):
+            continue
+        uses = [x for x in ast.walk(fn) if isinstance(x, ast.Name) and x.id == 'entrypoint_configurables']
+        if not uses and 'prog' not in fid and not any(isinstance(x, ast.Attribute) and x.attr == 'prog' for x in ast.walk(fn)):
+            continue
+        n += 1
+        # names that range over the entry point table
+        ep_vars = set()
+        for x in ast.walk(fn):
+            if isinstance(x, (ast.For, ast.comprehension)) and any(isinstance(y, ast.Name) and y.id == 'entrypoint_configurables' for y in ast.walk(x.iter)):
+                ep_vars |= {t.id for t in ast.walk(x.target) if isinstance(t, ast.Name)}
+        bad = []
+        for c in calls_in(fn):
+            if isinstance(c.func, ast.Attribute) and c.func.attr in ('startswith', 'endswith', 'find', 'index'):
+                involved = {y.id for y in ast.walk(c) if isinstance(y, ast.Name)}
+                if involved & ep_vars or any(isinstance(y, ast.Attribute) and y.attr == 'prog' for y in ast.walk(c)):
+                    bad.append(c)
+        for c in ast.walk(fn):
+            if isinstance(c, ast.Compare) and isinstance(c.ops[0], (ast.In, ast.NotIn)) and isinstance(c.left, ast.Name) and c.left.id in ep_vars and not \
+                    (isinstance(c.comparators[0], ast.Name) and c.comparators[0].id == 'entrypoint_configurables'):
+                bad.append(c)
+        ctx.inst(rule, fid, '%d prefix/substring test(s) on the program name' % len(bad), not bad, 'exact lookup' if not bad else
+                 '%s matches entry points by prefix: "nbdiff-web" resolves to "nbdiff" (listed first), so the web tools read the NbDiff/NbMerge sections and ignore their own and the Web section' % repo.norm(bad[0])[:60],
+                 bad[0] if bad else fn)
+    if not n:
+        raise AnalysisError('no function resolving the entry point name found')
+
+
+@extra('C04', 'R04.10', 'when a cleared field is absent from base (both sides added it) the cleared value is ADDED: the field may be one the schema requires (execution_count of a cell '
+       'both sides converted to code)', 1)
+def clear_adds_when_absent(ctx, rule):
+    repo = ctx.repo
+    ra = repo.func('nbdime.merging.decisions:resolve_action')
+    adds = [c for c in calls_in(ra) if dotted(c.func) == 'op_add']
+    clear_if = [n for n in ast.walk(ra) if isinstance(n, ast.If) and any(isinstance(c, ast.Constant) and c.value == 'clear' for c in ast.walk(n.test))]
+    if not clear_if:
+        raise AnalysisError('resolve_action: the clear arm was not found')
+    ok = any(any(x is c for ci in clear_if for x in ast.walk(ci)) for c in adds)
+    ctx.inst(rule, 'nbdime.merging.decisions:resolve_action', 'clear arm builds op_add for a key absent from base: %s' % ('yes' if ok else 'no'), ok,
+             'a required field both sides added is present (cleared) in the result' if ok else
+             'for a key absent from base the clear action produces nothing: a markdown cell both sides convert to code (different execution counts) ends up WITHOUT execution_count, '
+             'which the schema requires -- invalid notebook, no conflict reported', clear_if[0])
+
+
+@extra('C01', 'R01.17', 'reviving a diff read from a file never rejects it because of what its PAYLOAD looks like: to_diffentry_dicts contains no validation/raise (a cell or JSON output '
+       'that has a member called "op" is ordinary data)', 1)
+def reviver_does_not_validate_payload(ctx, rule):
+    repo = ctx.repo
+    fid = 'nbdime.diff_utils:to_diffentry_dicts'
+    fn = repo.func(fid)
+    bad = [n for n in ast.walk(fn) if isinstance(n, ast.Raise)] + [c for c in calls_in(fn) if 'validate' in (dotted(c.func) or '')]
+    ctx.inst(rule, fid, '%d raise/validate construct(s)' % len(bad), not bad, 'payload is only wrapped' if not bad else
+             'the reviver walks values and valuelists too (whole cells, metadata, JSON outputs): a payload object with an "op" member (a JSON Patch document in an output, metadata '
+             '{"step": {"op": "show"}}) is now judged as a diff entry and nbpatch aborts on a diff that nbdiff wrote', bad[0] if bad else fn)
+
+
+@extra('C02', 'R02.18', 'the LCS length grid holds plain Python integers: no fixed-width cell type (bytearray, array, ctypes, numpy small ints) whose range the number of common items can exceed', 1)
+def lcs_grid_unbounded_ints(ctx, rule):
+    repo = ctx.repo
+    n = 0
+    for fid, fn in sorted(repo.functions.items()):
+        if not fid.startswith(('nbdime.diffing.seq_bruteforce:', 'nbdime.diffing.lcs:', 'nbdime.diffing.seq_difflib:', 'nbdime.diffing.seq_myers:', 'nbdime.diffing.snakes:')):
+            continue
+        n += 1
+        bad = [c for c in calls_in(fn) if (dotted(c.func) or '').split('.')[-1] in ('bytearray', 'bytes', 'array', 'c_uint8', 'c_uint16', 'uint8', 'uint16', 'int8', 'int16')]
+        if bad:
+            ctx.inst(rule, fid, repo.norm(bad[0])[:60], False,
+                     'cells of this container hold at most 255 (65535): two sequences with more common items than that -- a 300-line output changed in one line -- make the differ raise '
+                     'ValueError instead of returning a diff', bad[0])
+    ctx.inst(rule, 'nbdime.diffing (sequence algorithms)', '%d function(s) examined' % n, n >= 3, 'no fixed-width integer containers besides those reported', None)
+
+
+@extra('C12', 'R12.12', 'the option-processing path keeps no record of its own: no function of nbdime.args / nbdime.config writes a module-level container or rebinds a module-level name '
+       '(what is in force lives in the differ table alone; a private memo of "what the last command installed" makes the next command depend on the previous one)', 1)
+@extra('C14', 'R14.17', 'the option-processing path keeps no record of its own: no function of nbdime.args / nbdime.config writes a module-level container or rebinds a module-level name', 1)
+def option_path_keeps_no_memo(ctx, rule):
+    repo = ctx.repo
+    MUT = {'append', 'extend', 'insert', 'remove', 'pop', 'clear', 'sort', 'reverse', 'update', 'setdefault', 'add', 'discard', 'popitem', '__setitem__'}
+    for mod in ('nbdime.args', 'nbdime.config'):
+        m = repo.mod(mod)
+        containers = {nm for nm, vals in m.assigns.items() for v in vals
+                      if isinstance(v, (ast.Dict, ast.List, ast.Set)) or (isinstance(v, ast.Call) and (dotted(v.func) or '').split('.')[-1] in ('dict', 'list', 'set', 'defaultdict', 'OrderedDict', 'deque'))}
+        bad = []
+        for fid, fn in sorted(repo.functions.items()):
+            if not fid.startswith(mod + ':'):
+                continue
+            local = {a.arg for a in fn.args.args + fn.args.kwonlyargs} | {x.id for x in walk_no_nested(fn) if isinstance(x, ast.Name) and isinstance(x.ctx, ast.Store)}
+            glob = {n for x in walk_no_nested(fn) if isinstance(x, ast.Global) for n in x.names}
+            for x in walk_no_nested(fn):
+                if isinstance(x, ast.Name) and isinstance(x.ctx, ast.Store) and x.id in glob:
+                    bad.append((x, fid, 'rebinds the module-level name %s' % x.id))
+                if isinstance(x, (ast.Subscript, ast.Attribute)) and isinstance(x.ctx, (ast.Store, ast.Del)) and isinstance(x.value, ast.Name) and x.value.id in containers and \
+                        (x.value.id not in local or x.value.id in glob):
+                    bad.append((x, fid, 'stores into the module-level %s' % x.value.id))
+                if isinstance(x, ast.Call) and isinstance(x.func, ast.Attribute) and x.func.attr in MUT and isinstance(x.func.value, ast.Name) and x.func.value.id in containers and \
+                        (x.func.value.id not in local or x.func.value.id in glob):
+                    bad.append((x, fid, '%s.%s(...) on a module-level container' % (x.func.value.id, x.func.attr)))
+        # named exemption (same as C12 R12.5): config_instance memoises the traitlets objects built from the config FILES, keyed by class; it records nothing about commands
+        bad = [b for b in bad if not (b[1] == 'nbdime.config:config_instance' and '_config_cache' in b[2])]
+        ctx.inst(rule, mod, 'module-level containers %s; writes from functions: %d' % (sorted(containers), len(bad)), not bad, 'none is written by a function' if not bad else
+                 '%s (%s): the outcome of processing one command\'s options is remembered and consulted by the next one -- the N-th command no longer behaves like the same command in a '
+                 'fresh process' % (bad[0][2], bad[0][1].split(':')[1]), bad[0][0] if bad else None)
+
+
+@extra('C05', 'R05.11', 'the type-strict equality treats JSON objects as UNORDERED: its mapping branch compares key sets and values per key; it never turns .items() into a sequence '
+       '(two sides making the same change with another key order must still agree)', 1)
+@extra('C02', 'R02.19', 'the type-strict equality treats JSON objects as UNORDERED (a key-reordered but otherwise equal payload is not a change)', 1)
+def strict_equal_unordered(ctx, rule):
+    repo = ctx.repo
+    fid = 'nbdime.diffing.generic:strict_equal'
+    fn = repo.func(fid)
+    bad = []
+    for c in calls_in(fn):
+        if dotted(c.func) in ('tuple', 'list', 'zip', 'iter', 'enumerate') and any(isinstance(x, ast.Call) and isinstance(x.func, ast.Attribute) and x.func.attr in ('items', 'values', 'keys')
+                                                                                  for a in c.args for x in ast.walk(a)) and \
+                not any(isinstance(x, ast.Call) and dotted(x.func) == 'sorted' for a in c.args for x in ast.walk(a)):
+            bad.append(c)
+    keyset = any(isinstance(c, ast.Compare) and any(isinstance(x, ast.Call) and isinstance(x.func, ast.Attribute) and x.func.attr == 'keys' for x in ast.walk(c)) for c in ast.walk(fn)) or \
+        any(isinstance(c, ast.Call) and dotted(c.func) == 'set' for c in ast.walk(fn))
+    ok = not bad and keyset
+    ctx.inst(rule, fid, 'mapping branch: key sets compared: %s; items sequenced: %s' % ('yes' if keyset else 'no', 'yes' if bad else 'no'), ok,
+             'order-insensitive' if ok else
+             'objects are compared as ordered (key, value) sequences: two sides that add or replace the SAME JSON object written in a different key order no longer agree -- the merge '
+             'reports a conflict (or under use-base silently drops the change), and the notebook differ reports a spurious replace', bad[0] if bad else fn)
